@@ -5,6 +5,7 @@ import itertools
 import os
 import random
 
+from .. import suiteengine
 from ..absstate import snapshot
 from ..common import (DEFAULT_NS, new_scratch, rmtree, split_seeds, ncpu, load_repo, call, open_store,
                       read_all_and_close, clear_atexit_tmp_handlers)
@@ -38,7 +39,7 @@ BAD_FMT = ["  ", "\t", "\n"]
 def shards(tier, seed):
     cases = build_cases(tier)
     k = ncpu() if tier == "quick" else ncpu() * 2
-    return [(c, s, tier) for c, s in zip(chunk(cases, k), split_seeds(seed * 1000 + 17, k))]
+    return [(c, s, tier) for c, s in zip(chunk(cases, k), split_seeds(seed * 1000 + 17, k))] + [("suite", 0, tier)]
 
 
 def min_required(tier):
@@ -85,6 +86,9 @@ def build_cases(tier="quick"):
 
 def run_shard(cases, sub_seed, tier="quick"):
     res = ShardResult()
+    if cases == "suite":
+        suiteengine.run(res, ID)
+        return res
     ns = load_repo()
     OM = ns["ObjectMetadata"]
     scratch = new_scratch("c17")
